@@ -170,6 +170,9 @@ func runLoadedV1(c *Case, s *plrt.Script, fields map[string]any, fireAt int) Imp
 	out.Polls = sig.Polls
 	out.After = sig.AfterHit
 	out.Tags, out.Fields, out.Meas, out.Time = pt.Tags, pt.Fields, pt.Measurement, pt.Time
+	if out.Crash == nil {
+		impl.ReleasePoint(pt)
+	}
 	return out
 }
 
